@@ -3,6 +3,8 @@ model/Dispatch.v on random scenarios + PEP 3333 monitor over hostile environs
 and handler programs."""
 import functools
 import io
+import tempfile
+from http import HTTPStatus
 import re
 import threading
 import time
@@ -98,9 +100,44 @@ def run(ctx):
     programs = [("ret", v) for v in dc.VAL_POOL[::3]] + \
         [("abort", c) for c in (0, 200, 401, 404, 999)] + \
         [("abortkw", c) for c in (400, 404, 409, 410, 500, 999)] + \
-        [("throw", 1), ("throw", 5), ("throw", 6), ("conn",), ("exit",)]
+        [("throw", 1), ("throw", 5), ("throw", 6), ("conn",), ("exit",)] + \
+        [("setstatus", v) for v in (503.0, 404, HTTPStatus.NOT_FOUND, True,
+                                    "404", 299)] + \
+        [("fileobj", k) for k in ("stringio", "bytesio", "textfile",
+                                  "binfile")] + \
+        [("addheader", v) for v in ("image.png", "caf\u00e9.txt",
+                                    "\u017elu\u0165ou\u010dk\u00fd.txt",
+                                    "\u4e2d\u6587.pdf", 'q"uo\\te', "")]
 
     def perform(prog):
+        if prog[0] == "setstatus":
+            # the setter accepts whatever compares equal to a known code
+            from poorwsgi.response import Response, JSONResponse
+            res = rng.choice([Response("x"), JSONResponse(a=1)])
+            res.status_code = prog[1]
+            return res
+        if prog[0] == "addheader":
+            # header parameters given as keyword arguments
+            from poorwsgi.response import Response
+            res = Response("x")
+            res.add_header("Content-Disposition", "attachment",
+                           filename=prog[1])
+            res.add_header("X-P", prog[1] or "v", **{"n\u00e4me": prog[1],
+                                                      "flag": None})
+            res.headers.add_header("Link", ("a", "b"), rel=prog[1])
+            return res
+        if prog[0] == "fileobj":
+            from poorwsgi.response import FileObjResponse
+            if prog[1] == "stringio":
+                fobj = io.StringIO("text")
+            elif prog[1] == "bytesio":
+                fobj = io.BytesIO(b"bytes")
+            else:
+                fobj = tempfile.TemporaryFile(
+                    "w+" if prog[1] == "textfile" else "w+b")
+                fobj.write("text" if prog[1] == "textfile" else b"bytes")
+                fobj.seek(0)
+            return FileObjResponse(fobj)
         if prog[0] == "abortkw":    # HTTPException with keyword arguments
             from poorwsgi.response import HTTPException
             raise HTTPException(prog[1], **rng.choice(
